@@ -26,6 +26,7 @@ import (
 	"github.com/versity/versitygw/auth"
 	"github.com/versity/versitygw/backend"
 	"github.com/versity/versitygw/metrics"
+	"github.com/versity/versitygw/s3api/utils"
 	"github.com/versity/versitygw/s3err"
 	"github.com/versity/versitygw/s3log"
 	"github.com/versity/versitygw/s3response"
@@ -157,6 +158,15 @@ func (c AdminController) ChangeBucketOwner(ctx *fiber.Ctx) error {
 	}
 	if len(accs) > 0 {
 		return SendResponse(ctx, s3err.GetAPIError(s3err.ErrAdminUserNotFound),
+			&MetaOpts{
+				Logger: c.l,
+				Action: metrics.ActionAdminChangeBucketOwner,
+			})
+	}
+
+	// the bucket is a name, not a path into (or out of) the backend storage
+	if !utils.IsValidBucketName(bucket, false) {
+		return SendResponse(ctx, s3err.GetAPIError(s3err.ErrInvalidBucketName),
 			&MetaOpts{
 				Logger: c.l,
 				Action: metrics.ActionAdminChangeBucketOwner,
